@@ -1467,11 +1467,12 @@ type jphase =
 | JRunning
 | JDeleted
 | JDropped
+| JStored
 
 type conn = { k_rec : alloc; k_stream : bool; k_registered : bool;
               k_in_flight : bool; k_closed : bool; k_pending : nat;
               k_peer_closed : bool; k_jobs : jphase list; k_in_batch : 
-              bool; k_stale : bool; k_answered : nat; k_taken : nat list }
+              bool; k_grave : bool; k_answered : nat; k_taken : nat list }
 
 type elstate =
 | EWaiting0
@@ -1499,6 +1500,7 @@ type elabel =
 | LDel of nat
 | LStreamDrop of nat
 | LClosedStore of nat
+| LGrave of nat
 
 val ready : conn -> bool
 
